@@ -553,7 +553,7 @@ fn run_typed<F: Float>(case: &Case, viols: &mut Vec<Violation>) -> Counters {
                     a.as_object_mut().unwrap().insert("op".into(), json!("params_builder_history"));
                     a.as_object_mut().unwrap().insert("builder_history".into(), json!(hname));
                     let what = match &got {
-                        Ok(k2) => format!("a different kernel (inner matrix {:?})", image(k2).m),
+                        Ok(k2) => format!("a different kernel ({}, method {:?}, inner matrix {:?})", if matches!(k2.inner, KernelInner::Dense(_)) { "dense" } else { "sparse" }, k2.method, image(k2).m),
                         Err(p) => format!("a panic: {}", p),
                     };
                     viols.push(Violation::new(
